@@ -486,6 +486,12 @@ def f():
     import itertools
     groups = [[1, 2], [], [3]]
     return list(itertools.chain.from_iterable(groups)), list(itertools.starmap(lambda a, b: a + b, [(1, 2), (3, 4)])), list(itertools.takewhile(lambda v: v < 3, [1, 2, 3, 1])), list(itertools.zip_longest([1, 2], 'a', fillvalue='-')), list(itertools.pairwise([1, 2, 3]))
+---
+def f():
+    import operator, functools
+    xs = [1]
+    ys = operator.iadd(xs, [2])
+    return ys is xs, xs, operator.iadd(1, 2), functools.reduce(operator.iadd, [1.5, 2, 3], 0), operator.imul(3, 4), operator.isub(5, 1)
 '''
 
 
